@@ -14,7 +14,7 @@
    trees and on the implementation's pages, and is false for trees whose directory order is not key order
    (known finding c07:order-incompatible-tree, witness below). *)
 From Coq Require Import String Ascii List Arith Bool.
-From VGW Require Import Base.GoStr Model.Walk Spec.ListSpec Proofs.WalkProof Proofs.WalkFlat Proofs.WalkRefine Proofs.WalkPage Proofs.WalkDelim Proofs.WalkFolder Proofs.WalkSubtree.
+From VGW Require Import Base.GoStr Model.Walk Spec.ListSpec Proofs.WalkProof Proofs.WalkFlat Proofs.WalkRefine Proofs.WalkPage Proofs.WalkDelim Proofs.WalkFolder Proofs.WalkSubtree Proofs.WalkInvalid.
 Import ListNotations.
 Open Scope string_scope.
 
@@ -113,6 +113,28 @@ Theorem C07_bookkeeping_prefix_empty : forall t sd r delim marker max skip flag,
   walk t (r ++ "/") delim marker max skip flag = Some empty_result.
 Proof. exact bookkeeping_prefix_empty. Qed.
 Print Assumptions C07_bookkeeping_prefix_empty.
+
+(* a prefix r/w whose directory part r is no path - an element that is empty, "." or ".." ("a//b", "../x", "a/./b") - is the prefix of
+   no key of a tree whose names are path elements, and the walk answers the empty page for it, which is the page of the S3 rule:
+   whatever the tree, delimiter, marker and page size (before repair 24e8de4 the gateway answered an internal error there) *)
+Theorem C07_invalid_prefix_refines : forall b kids r w delim marker max skip flag,
+  strict_names (D b kids) -> r <> "" -> r <> "." -> has_char "/" w = false -> forallb valid_seg (split_slash r "") = false -> max <> 0 ->
+  walk (D b kids) (r ++ "/" ++ w) delim marker max skip flag =
+  Some (s3_list (sort_strs (keys_at "." (D b kids))) (r ++ "/" ++ w) delim marker max).
+Proof. exact invalid_prefix_refines. Qed.
+Print Assumptions C07_invalid_prefix_refines.
+
+Theorem C07_invalid_prefix_names_no_key : forall b kids k r w, strict_names (D b kids) -> In k (keys_at "." (D b kids)) ->
+  forallb valid_seg (split_slash r "") = false -> has_prefix k (r ++ "/" ++ w) = false.
+Proof. exact invalid_root_no_key. Qed.
+Print Assumptions C07_invalid_prefix_names_no_key.
+
+Example C07_invalid_prefix_example :
+  let t := D false [("a", D false [("b", F true); ("c", D true [])])] in
+  strict_names t /\ keys_at "." t = ["a/b"; "a/c/"] /\
+  forallb valid_seg (split_slash "a/" "") = false /\ forallb valid_seg (split_slash "a/../a" "") = false /\
+  walk t "a//b" "" "" 10 [".sgwtmp"] false = Some empty_result.
+Proof. vm_compute. repeat split; reflexivity. Qed.
 
 (* without the last hypothesis the statement is false of the faithful model (known finding c07:keyless-directory-with-delimiter):
    a directory that holds no key is still reported as a common prefix *)
